@@ -64,6 +64,10 @@ def cfgPreciseResolver : Bool := true
 def cfgExtraArgRequired : Bool := true
 def cfgSubscriptionChecked : Bool := true
 def cfgCatchesTypeError : Bool := true
+/-- `Schema.validate()` only trusts the cached verdict for the resolver callables it was computed with (fix C13-HH1) -/
+def cfgCacheTracksAssignments : Bool := true
+/-- the resolver-signature rule inspects the callable itself, not what it `functools.wraps` (fix C13-HH2) -/
+def cfgOuterSignature : Bool := true
 
 /-- the proposed fix C13-S4-S6 is present in the working tree -/
 def fixS4S6 : Bool := true
